@@ -644,7 +644,10 @@ func runC07(c *mon.Ctx) {
 			if i >= 6 {
 				break
 			}
-			res := shaper.Apply(t.ll, t.gd, lookups, c07input(s, t.gpos, t.gd))
+			var res *shaper.Result
+			if pv, _ := mon.Try(func() { res = shaper.Apply(t.ll, t.gd, lookups, c07input(s, t.gpos, t.gd)) }); pv != nil || res == nil {
+				continue // the reference is only asked for a coverage class here
+			}
 			if res.Undefined == shaper.UndefActionBudget || res.Undefined == shaper.UndefSeqIndex {
 				exhausted++
 			}
